@@ -183,6 +183,10 @@ func (g *influxqlGroup) getFieldKind(fields models.Fields) (reflect.Kind, error)
 	if !exists {
 		return reflect.Invalid, fmt.Errorf("field %q missing from point", g.bc.field)
 	}
+	if f == nil {
+		// e.g. a field filled with null by an outer join
+		return reflect.Invalid, fmt.Errorf("field %q of point is null", g.bc.field)
+	}
 
 	return reflect.TypeOf(f).Kind(), nil
 }
